@@ -334,13 +334,14 @@ func sxTables(ts []tblInfo) string {
 }
 
 // returns "" when the program contains something the logical model does not cover
-func sxDbProgram(opts dbOpts, steps []dbStep, sweeps [][]dbStep, sweepBeforeCompact bool) string {
+// the step list of a database program with its observations; "" if a step failed in an unmodelled way
+func sxDbSteps(opts dbOpts, steps []dbStep) (string, bool) {
 	cur := opts
-	var xs, sws []string
+	var xs []string
 	for i := range steps {
 		s := &steps[i]
 		if len(s.Err) > 6 && (s.Err[:6] == "Other:" || s.Err[:6] == "Panic:") {
-			return ""
+			return "", false
 		}
 		switch s.Op {
 		case "put", "putb":
@@ -368,6 +369,15 @@ func sxDbProgram(opts dbOpts, steps []dbStep, sweeps [][]dbStep, sweepBeforeComp
 			xs = append(xs, sxL("n5", sxTables(s.Tables)))
 		}
 	}
+	return sxList(xs), true
+}
+
+func sxDbProgram(opts dbOpts, steps []dbStep, sweeps [][]dbStep, sweepBeforeCompact bool) string {
+	stepsSx, ok := sxDbSteps(opts, steps)
+	if !ok {
+		return ""
+	}
+	var sws []string
 	for _, sw := range sweeps {
 		var ps []string
 		for _, g := range sw {
@@ -375,5 +385,5 @@ func sxDbProgram(opts dbOpts, steps []dbStep, sweeps [][]dbStep, sweepBeforeComp
 		}
 		sws = append(sws, sxList(ps))
 	}
-	return sxL(sxList(xs), sxList(sws), "()", sxBool(sweepBeforeCompact))
+	return sxL(stepsSx, sxList(sws), "()", sxBool(sweepBeforeCompact))
 }
